@@ -1020,6 +1020,25 @@ theorem conc_leave_iterations_commute (st : State) (k : Key) (x : Nat) :
     fun g b => Conc.comm_demonitor st k x g b, fun s b => Conc.comm_demonitorScope st k x s b,
     fun g b => Conc.comm_demonitorFwd st k x g b, fun s b => Conc.comm_demonitorScopeFwd st k x s b⟩
 
+
+/-- **An iteration of `leave_scoped` moves past every region of every thread — in `Pg.Conc.step` itself.** With
+`withLeaveOne g k x` = the global state with the iteration for actor `x` of a `leave_scoped` holding entry `k`
+applied: running ANY region of ANY exit (blocked or not, whatever its phase; for `x`'s own exit every region but
+`take` / `finish`) or ANY region of ANY caller thread (filters, `joinLock`, `joinOne`, `joinCommit`, clean-ups,
+notification regions, entry regions of leaves, every `monitor*` / `demonitor*` region; `callMovable` excludes only
+the `joinOne` of `x` on the held entry itself — impossible while a leave holds it — and a
+`remove_empty_actor_relations` of a stopping `x`) before or after the iteration gives the same global state: same
+phases, program counters, lock table, change records with their recipients, notifications, stale ghosts, and the
+same answer to every lookup in the four indexes (`GEq`). So the per-actor iterations of a stepped `leave_scoped` can
+be moved, one region at a time, to sit right before its forward part — where, run contiguously, they are the merged
+step (`conc_leave_iterations_commute` (1)). -/
+theorem conc_leave_iteration_moves_past_every_region (g : Conc.G) (k : Key) (x : Nat) :
+    (∀ a r, (a = x → r ≠ .take ∧ r ≠ .finish) →
+      Conc.GEq (Conc.step (Conc.withLeaveOne g k x) (.ex a r)) (Conc.withLeaveOne (Conc.step g (.ex a r)) k x)) ∧
+    (∀ i, (∀ pc, g.thr[i]? = some pc → Conc.callMovable g.st k x pc) →
+      Conc.GEq (Conc.step (Conc.withLeaveOne g k x) (.call i)) (Conc.withLeaveOne (Conc.step g (.call i)) k x)) :=
+  ⟨fun a r h => Conc.step_ex_comm g k x a r h, fun i h => Conc.step_call_comm g k x i h⟩
+
 /-- non-vacuity of the residual case (ii): actor 1 is stopping, its only reverse-index entry is its membership of
 (1,5): `remove_empty_actor_relations(1)` after the iteration removes the entry, before it leaves it behind empty -/
 example :
@@ -1090,3 +1109,4 @@ end C11
 #print axioms C11.ineffective_leave_is_notified
 #print axioms C11.conc_readers_linearizable
 #print axioms C11.conc_leave_iterations_commute
+#print axioms C11.conc_leave_iteration_moves_past_every_region
